@@ -235,7 +235,8 @@ From Coq Require Import String.
 From P9V Require gen.RefsGen Refs.GenTie.
 Local Open Scope string_scope.
 (** C05_code_skeleton: the event skeletons RefsGen extracts on every run from fidRef.DecRef, notifyDelete,
-    fidRef.markChildDeleted, notifyNameChange, fidRef.renameChildTo, connState.stop and doWalk (calls of the
+    fidRef.markChildDeleted, notifyNameChange, fidRef.renameChildTo, connState.stop / LookupFID / InsertFID /
+    DeleteFID and doWalk (calls of the
     reference / path-tree / File operations in order, each with receiver, arguments, path condition incl.
     early returns, and closure / defer / loop context; locals substituted away) equal the table of
     Refs/GenTie.v that was reviewed against Refs/Model.v function by function.  An equality with a reviewed
